@@ -123,7 +123,7 @@ class Check(PropertyCheck):
         #  pruned graph `remove_node`'s own sweep of isolated nodes can take an unscheduled operation's node, by design)
         scribble = False
         mid_attach = False
-        if rng.random() < 0.08 and not any(l.startswith(("fobs", "disp")) for l in lines):
+        if rng.random() < 0.16 and not any(l.startswith(("fobs", "disp")) for l in lines):
             # the updater is attached to a dispatcher that already has a history (and nobody subscribed yet): what was completed before is
             # not back-filled, but from here on nothing that still has unscheduled operations may disappear
             for _ in range(rng.randint(1, max(1, gen.num_ops(jobs) - 2))):
@@ -133,6 +133,10 @@ class Check(PropertyCheck):
                 tr.take(j)
                 lines.append(f"disp {j} {p} {m}")
             mid_attach = True
+            if rng.random() < 0.6:
+                # (a completion-flag observer of the user's that has been there from the start: the updater will share it)
+                k0 = next(k for k, l in enumerate(lines) if l.startswith("disp"))
+                lines.insert(k0, "fobs is_completed " + rng.choice(["-", "-", "o", "om"]))
         elif rng.random() < 0.1:
             # a composite over the completion flags exists before the updater is attached (the updater then shares that observer),
             # and a third party keeps writing into the matrices the composite hands out
@@ -258,6 +262,7 @@ class Check(PropertyCheck):
             return self.custom_blocks_oracle(int(line.split()[2]))
         if line == "reset":
             ctx["removed"] = None
+            ctx["notified"] = False
             return res
         if line != "fsnap":
             return res
@@ -290,7 +295,11 @@ class Check(PropertyCheck):
             elif node.node_type == NT.JOB:
                 if any(o.operation_id not in scheduled for o in impl.instance.jobs[node.job_id]):
                     res.append(("job-early", f"job node {node.job_id} removed while it has unscheduled operations"))
-        if dispatched and not scenario.meta.get("mid_attach"):
+        if index >= 1 and scenario.lines[index - 1].startswith("disp"):
+            ctx["notified"] = True
+        # (an updater attached mid-episode is not back-filled at attachment; from its first notification on it removes the node of
+        #  every completed operation, also of those completed before it came)
+        if dispatched and (not scenario.meta.get("mid_attach") or ctx.get("notified")):
             for oid in completed:
                 if not g.removed_nodes[oid]:
                     res.append(("completed-kept", f"node of completed operation {oid} is still in the graph"))
